@@ -14,16 +14,17 @@ Case formats (JSON-able, sufficient for `replay`):
            location [s:L)+[0:e) (same convention for the query q).
   build:   {"fn": "build", "L": 30, "circ": bool, "genes": [[s, e, strand], ...],
             "areas": [["p", [cs, ce], [s, e], product] | ["s", [s, e]], ...],
-            "slots": [k, ...]}
+            "slots": [k, ...], "late": m (optional, default 0)}
            the area-side operations are, in order: add each area (add_protocluster /
-           add_subregion), create_candidate_clusters, create_regions; gene i is added immediately
+           add_subregion) except the last `late` ones, create_candidate_clusters, create_regions,
+           then the `late` areas (areas added inside existing regions); gene i is added immediately
            before area-side operation number slots[i] (slots[i] == number of operations: after all).
            Genes carry CORE gene functions according to `_annotation` (a fixed function of their
            coordinates), so that protocluster definition genes can be checked.
 
 The known-finding classes C08-F1/F2/F4 are delimited with `pinned_lookup`, a model of the lookup
-as it is in /repo now (i.e. including the repair of C08-F3, after which a with_overlapping lookup
-of a multi-part location is no longer filtered by containment).
+as it is in /repo now.  C08-F3 (multi-part with_overlapping lookups) and C08-F5 (region window of
+`_link_cds_to_parent`) are repaired in /repo and have no class any more: a recurrence is reported.
 """
 from __future__ import annotations
 
@@ -150,6 +151,8 @@ def _annotation(gene: Sequence[int]) -> List[str]:
     """CORE products carried by a gene: a fixed function of its coordinates that yields all of
     'none', 'pa', 'pb', 'pa+pb' inside and outside the cores used below."""
     start, end = gene[0], gene[1]
+    if start >= end:       # origin-spanning genes: both products forward, only 'pb' on the reverse strand
+        return ["pa", "pb"] if gene[2] == 1 else ["pb"]
     products = []
     if ((start + end) // STEP) % 2 == 1:
         products.append("pa")
@@ -172,6 +175,7 @@ AREA_POOL_LINEAR = [
     [["p", [5, 15], [0, 20], "pa"], ["p", [5, 15], [0, 20], "pb"]],          # identical, may share genes
     [["s", [5, 25]], ["p", [10, 15], [10, 20], "pa"]],                       # protocluster inside subregion
     [["p", [15, 25], [10, 30], "pb"], ["p", [10, 15], [5, 20], "pa"]],       # added in reverse order
+    [["s", [0, 5]], ["s", [5, 15]], ["s", [15, 30]]],                        # three touching sections
 ]
 AREA_POOL_CIRCULAR = [
     [["p", [25, 5], [20, 10], "pa"]],
@@ -185,6 +189,25 @@ AREA_POOL_CIRCULAR = [
     [["p", [25, 5], [20, 10], "pa"], ["p", [25, 5], [20, 10], "pb"]],        # identical origin-spanning
     [["s", [20, 25]], ["s", [25, 5]]],                                        # touching at 25
     [["p", [20, 25], [15, 30], "pa"], ["p", [0, 5], [0, 10], "pb"]],         # meet only at the origin: no shared base
+    [["p", [25, 5], [20, 10], "pb"]],                                         # origin-spanning core, product pb
+    [["p", [20, 10], [15, 10], "pa"]],                                        # wide origin-spanning core
+    [["p", [20, 10], [20, 10], "pb"], ["s", [12, 18]]],                      # core == extent, spanning
+    [["s", [25, 30]], ["s", [0, 5]], ["s", [10, 20]]],                       # contact only across the origin, 3 sections
+    [["s", [25, 5]], ["s", [5, 10]], ["s", [15, 20]]],                       # spanning + touching + apart
+    [["p", [25, 30], [20, 30], "pa"], ["p", [0, 5], [0, 10], "pb"], ["s", [10, 15]]],
+]
+# (areas, number of trailing areas that are added AFTER create_regions, inside an existing region)
+LATE_POOL_LINEAR = [
+    ([["s", [5, 25]], ["s", [10, 15]]], 1),
+    ([["p", [10, 15], [5, 20], "pa"], ["p", [10, 15], [10, 15], "pb"]], 1),
+    ([["s", [5, 15]], ["s", [15, 30]], ["s", [15, 20]]], 1),
+    ([["p", [5, 15], [0, 20], "pa"], ["s", [0, 10]], ["p", [5, 10], [5, 15], "pb"]], 2),
+]
+LATE_POOL_CIRCULAR = [
+    ([["s", [25, 10]], ["s", [0, 5]]], 1),
+    ([["s", [20, 10]], ["s", [25, 5]]], 1),
+    ([["p", [25, 5], [20, 10], "pa"], ["p", [25, 5], [25, 5], "pb"]], 1),
+    ([["p", [10, 15], [5, 20], "pb"], ["s", [20, 5]], ["s", [25, 5]]], 1),
 ]
 
 
@@ -232,6 +255,12 @@ def _build_layouts(tier: str) -> List[Tuple[bool, List[List[int]]]]:
                 add(True, [cross, gene])
         for combo in itertools.combinations(tiny if quick else small, 2):
             add(True, list(combo) + [cross])
+        # the same origin-spanning gene on the other strand, alone, with its twin, with a plain gene
+        twin = [cross[0], cross[1], -cross[2]]
+        add(True, [twin])
+        add(True, [cross, twin])
+        for gene in tiny:
+            add(True, [twin, gene])
     return layouts
 
 
@@ -268,6 +297,11 @@ def run_shard(shard: Dict[str, Any], run: Any) -> None:
                 for slots in _slot_vectors(len(genes), len(areas) + 2, shard["tier"]):
                     case = {"fn": "build", "L": LENGTH, "circ": circular, "genes": genes,
                             "areas": areas, "slots": slots}
+                    _check_build(run, case)
+            for areas, late in (LATE_POOL_CIRCULAR if circular else LATE_POOL_LINEAR):
+                for slots in _slot_vectors(len(genes), len(areas) + 2, shard["tier"]):
+                    case = {"fn": "build", "L": LENGTH, "circ": circular, "genes": genes,
+                            "areas": areas, "slots": slots, "late": late}
                     _check_build(run, case)
     else:
         _run_random(run)
@@ -414,6 +448,14 @@ def _run_lookup_layout(run: Any, circular: bool, genes: List[List[int]], queries
 # ---------------------------------------------------------------------------------------------
 # build order: oracle and evaluation
 # ---------------------------------------------------------------------------------------------
+def _operations(case: Dict[str, Any]) -> List[Tuple[Any, ...]]:
+    """The area-side operations of a build case, in order."""
+    count = len(case["areas"])
+    early = count - case.get("late", 0)
+    return ([("area", i) for i in range(early)] + [("cands",), ("regions",)]
+            + [("area", i) for i in range(early, count)])
+
+
 def _run_history(case: Dict[str, Any]) -> Tuple[Any, List[Any], List[Any]]:
     """Executes the history on real objects; returns (record, genes, areas). Exceptions escape."""
     length, circular = case["L"], case["circ"]
@@ -425,7 +467,7 @@ def _run_history(case: Dict[str, Any]) -> Tuple[Any, List[Any], List[Any]]:
             areas.append(make_protocluster(area[1], area[2], area[3], length))
         else:
             areas.append(make_subregion(area[1], f"s{index}", length))
-    operations: List[Any] = [("area", i) for i in range(len(areas))] + [("cands",), ("regions",)]
+    operations = _operations(case)
     for step in range(len(operations) + 1):
         for index, slot in enumerate(case["slots"]):
             if slot == step:
@@ -521,7 +563,7 @@ _BASELINE_CACHE: Dict[str, Any] = {}
 
 def _baseline_signature(case: Dict[str, Any]) -> Any:
     """Signature of the same layout when every gene is added before any area."""
-    key = repr((case["L"], case["circ"], case["genes"], case["areas"]))
+    key = repr((case["L"], case["circ"], case["genes"], case["areas"], case.get("late", 0)))
     if key not in _BASELINE_CACHE:
         if len(_BASELINE_CACHE) > 2000:
             _BASELINE_CACHE.clear()
@@ -615,12 +657,11 @@ def _overlap(first: Sequence[Tuple[int, int]], second: Sequence[Tuple[int, int]]
 
 
 def pinned_lookup(genes: Sequence[Sequence[int]], query: Sequence[int], overlapping: bool,
-                  length: int, legacy_filter: bool = False) -> List[int]:
+                  length: int) -> List[int]:
     """Model of the lookup AS PINNED (bisect start, step back over equal starts / overlapping
     predecessors, stop at the first gene that neither qualifies nor contains its successor;
     multi-part queries: union of the per-part overlapping lookups, filtered by containment unless
-    with_overlapping - `legacy_filter` gives the behaviour before the C08-F3 repair, which
-    filtered always).  Used ONLY to delimit the known-finding classes, never as an oracle."""
+    with_overlapping).  Used ONLY to delimit the known-finding classes, never as an oracle."""
     order: List[int] = []
     for index, gene in enumerate(genes):                      # bisect_left insertion
         key = _sort_key(gene, length)
@@ -662,7 +703,7 @@ def pinned_lookup(genes: Sequence[Sequence[int]], query: Sequence[int], overlapp
         for index in single(part, True):
             if index not in features:
                 features.append(index)
-    if overlapping and not legacy_filter:
+    if overlapping:
         return features
     return [i for i in features if _contains(query_parts, gene_parts[i])]
 
@@ -673,45 +714,36 @@ def _pinned_misses(genes: Sequence[Sequence[int]], query: Sequence[int], overlap
         _expected_lookup(genes, query, overlapping, length)
 
 
-def _overlap_filter_case(case: Dict[str, Any]) -> bool:
-    """Origin-spanning query, with_overlapping, and some gene overlaps it without being inside."""
-    if not (case["ov"] and spans_origin(case["q"])):
-        return False
-    return _expected_lookup(case["genes"], case["q"], True, case["L"]) != \
-        _expected_lookup(case["genes"], case["q"], False, case["L"])
-
-
 def _plain(clause: str) -> str:
     return clause.split(" [")[0]
 
 
+def _sweep_class(clause: str, case: Dict[str, Any]) -> bool:
+    """The pinned sweep misses a qualifying gene for this lookup; for result-in-location-order:
+    the location has two parts and the per-part (with_overlapping) sweep of one part misses a gene
+    that overlaps that part - the gene is then only picked up through the other part and lands
+    out of order in the combined result."""
+    clause = _plain(clause)
+    if case.get("fn") != "lookup":
+        return False
+    if clause in ("within-exact", "overlapping-exact"):
+        return _pinned_misses(case["genes"], case["q"], clause == "overlapping-exact", case["L"])
+    if clause != "result-in-location-order" or not spans_origin(case["q"]):
+        return False
+    return any(_pinned_misses(case["genes"], list(part), True, case["L"])
+               for part in _parts(case["q"], case["L"]))
+
+
 def _is_f1(clause: str, case: Dict[str, Any]) -> bool:
     """Sweep heuristics on a record without origin-spanning genes."""
-    clause = _plain(clause)
-    if case.get("fn") != "lookup" or clause not in ("within-exact", "overlapping-exact"):
-        return False
-    if any(spans_origin(g) for g in case["genes"]):
-        return False
-    return _pinned_misses(case["genes"], case["q"], clause == "overlapping-exact", case["L"])
+    return case.get("fn") == "lookup" and not any(spans_origin(g) for g in case["genes"]) \
+        and _sweep_class(clause, case)
 
 
 def _is_f2(clause: str, case: Dict[str, Any]) -> bool:
     """Sweep heuristics defeated by an origin-spanning gene (sorted before index 0)."""
-    clause = _plain(clause)
-    if case.get("fn") != "lookup" or clause not in ("within-exact", "overlapping-exact"):
-        return False
-    if not any(spans_origin(g) for g in case["genes"]):
-        return False
-    return _pinned_misses(case["genes"], case["q"], clause == "overlapping-exact", case["L"])
-
-
-def _is_f3(clause: str, case: Dict[str, Any]) -> bool:
-    """with_overlapping lookups of an origin-spanning location return contained genes only
-    (repaired in /repo: the class only matters if that repair is undone; failures that the sweep
-    heuristics explain belong to F1/F2)."""
-    if not (case.get("fn") == "lookup" and _plain(clause) == "overlapping-exact" and _overlap_filter_case(case)):
-        return False
-    return not _pinned_misses(case["genes"], case["q"], True, case["L"])
+    return case.get("fn") == "lookup" and any(spans_origin(g) for g in case["genes"]) \
+        and _sweep_class(clause, case)
 
 
 def _mask_to_arc(mask: int, length: int) -> Optional[List[int]]:
@@ -727,41 +759,42 @@ def _mask_to_arc(mask: int, length: int) -> Optional[List[int]]:
 
 def _area_side_locations(case: Dict[str, Any]) -> List[Tuple[int, List[int]]]:
     """(operation number, location) of every area the record looks genes up for: the supplied
-    areas, and the candidate clusters / regions (spans of the overlapping groups)."""
+    areas, and the candidate clusters / regions (spans of the overlapping groups of the areas
+    present when they are created)."""
     length = case["L"]
+    operations = _operations(case)
     out: List[Tuple[int, List[int]]] = []
-    extents = []
-    for index, area in enumerate(case["areas"]):
-        extent = area[2] if area[0] == "p" else area[1]
-        extents.append(extent)
-        out.append((index, list(extent)))
-    count = len(extents)
+    extents = [area[2] if area[0] == "p" else area[1] for area in case["areas"]]
+    early = len(extents) - case.get("late", 0)
+    for position, operation in enumerate(operations):
+        if operation[0] == "area":
+            out.append((position, list(extents[operation[1]])))
     masks = [arc_mask(e, length) for e in extents]
-    protos = [i for i in range(count) if case["areas"][i][0] == "p"]
+    protos = [i for i in range(early) if case["areas"][i][0] == "p"]
     # candidate clusters: singles and the span of any overlapping protoclusters
     pairs = [(a, b) for a in protos for b in protos if a < b and masks[a] & masks[b]]
-    for group in components(count, pairs):
+    for group in components(early, pairs):
         if len(group) > 1:
             union = 0
             for i in group:
                 union |= masks[i]
             arc = _mask_to_arc(union, length)
             if arc:
-                out.append((count, arc))
-    pairs = [(a, b) for a in range(count) for b in range(count) if a < b and masks[a] & masks[b]]
-    for group in components(count, pairs):
+                out.append((operations.index(("cands",)), arc))
+    pairs = [(a, b) for a in range(early) for b in range(early) if a < b and masks[a] & masks[b]]
+    for group in components(early, pairs):
         union = 0
         for i in group:
             union |= masks[i]
         arc = _mask_to_arc(union, length)
         if arc:
-            out.append((count + 1, arc))
+            out.append((operations.index(("regions",)), arc))
     return out
 
 
 def _is_f4(clause: str, case: Dict[str, Any]) -> bool:
     """Membership clauses of a history in which some area-side operation runs after genes were
-    added and the pinned lookup (see F1-F3) misses a gene for that area's location."""
+    added and the pinned lookup (see F1/F2) misses a gene for that area's location."""
     clause = _plain(clause)
     if case.get("fn") != "build" or clause not in BUILD_CLAUSES:
         return False
@@ -776,39 +809,8 @@ def _is_f4(clause: str, case: Dict[str, Any]) -> bool:
     return False
 
 
-def _is_f5(clause: str, case: Dict[str, Any]) -> bool:
-    """A gene added after create_regions, at least two regions, and the gene lies in the FIRST
-    region in record order (the origin-spanning one, else the one with the smallest start)
-    either with coordinates identical to that region or, for an origin-spanning region, inside
-    its part before the origin: `_link_cds_to_parent` then looks at `_regions[left - 1:...]` with
-    a bisect position that skips the first region."""
-    clause = _plain(clause)
-    if case.get("fn") != "build" or clause not in ("area-genes-exact", "gene-region-link",
-                                                   "build-order-independent"):
-        return False
-    length = case["L"]
-    last = len(case["areas"]) + 2
-    regions = [arc for operation, arc in _area_side_locations(case) if operation == last - 1]
-    if len(regions) < 2:
-        return False
-    wrapped = [r for r in regions if spans_origin(r)]
-    first = wrapped[0] if wrapped else min(regions, key=lambda r: r[0])
-    first_mask = arc_mask(first, length)
-    for gene, slot in zip(case["genes"], case["slots"]):
-        if slot != last:
-            continue
-        mask = arc_mask(gene, length)
-        if mask == first_mask:
-            return True
-        if spans_origin(first) and not spans_origin(gene) and mask & ~first_mask == 0 and gene[0] >= first[0]:
-            return True
-    return False
-
-
 FINDING_CLASSES = {
     "C08-F1": _is_f1,
     "C08-F2": _is_f2,
-    "C08-F3": _is_f3,
     "C08-F4": _is_f4,
-    "C08-F5": _is_f5,
 }
